@@ -142,7 +142,7 @@ func keys(m map[string]bool) []string {
 }
 
 func checkC05(c *Ctx) error {
-	c.Rule = "(1) build-time half, exhaustive: every dependency structure on <=3 services (edges i->j for i<j, each realised as @ argument, field, call argument, !tagged or decorator-on-own-tag) x every assignment of {unset, shared, contextual, non_shared}: 1 + 6*16/… = 13 824+ configurations through the real binary (quick: seeded sample), Scope section compared with the reference scope rule; (2) run-time half: seeded configurations with explicit scopes on most services, executed with histories Get x2, getter, GetInContext(ctx1) x2, GetInContext(ctx2), GetTaggedBy(InContext) and compared with the reference identity model. distinct = distinct configuration text; non-trivial = >=2 services with >=1 dependency edge and >=1 explicit scope"
+	c.Rule = "(1) build-time half, exhaustive: every dependency structure on <=3 services (edges i->j for i<j, each realised as @ argument, field, call argument, !tagged or decorator-on-own-tag) x every assignment of {unset, shared, contextual, non_shared}: 4 + 96 + 13 824 = 13 924 configurations, plus variants with an undefined dependency next to the real ones run under --ignore-missing-services, through the real binary (quick: seeded sample of 3 500), Scope section compared with the reference scope rule; (2) run-time half: seeded configurations with explicit scopes on most services, executed with histories Get x2, getter, GetInContext(ctx1) x2, GetInContext(ctx2), GetTaggedBy(InContext) and compared with the reference identity model. distinct = distinct configuration text; non-trivial = >=2 services with >=1 dependency edge and >=1 explicit scope"
 	c.Assumptions = []string{"reference scope rule engine/ref (B.6) and identity model (B.7)", "instance identity is observed through fixture serials"}
 	w := c.W
 	// ---- (1) exhaustive small graphs: verdicts through the real binary
